@@ -1,10 +1,29 @@
 import Bluge.Numeric
+import BlugeGen.C10
 /-! # C10 — numeric encoding preserves order; range decomposition is exact
-Property theorems only (helper lemmas live in `BlugeProofs/C10/*.lean`). -/
+Property theorems only (helper lemmas live in `BlugeProofs/C10/*.lean`).
+`BlugeGen.C10.*` are the definitions translated from /repo's Go source on every run; `Bluge.Numeric.*`
+is the readable reference model. The `gen_*` theorems bridge the two for ALL inputs, so every theorem
+about the reference model is a theorem about the translated code. -/
 namespace Bluge.C10
 open Bluge.Numeric
 
 theorem lowMask_msb : lowMask.msb = false := by decide
+
+theorem slt_zero_eq_msb (x : I64) : BitVec.slt x 0#64 = x.msb := by
+  simp [BitVec.slt_zero_eq_msb]
+
+/-- bridge: the translated Float64ToInt64 is the reference `f2i` on every bit pattern -/
+theorem gen_f2i (f : I64) : BlugeGen.C10.Float64ToInt64 f = f2i f := by
+  unfold BlugeGen.C10.Float64ToInt64 f2i
+  simp only [slt_zero_eq_msb]
+  rfl
+
+/-- bridge: the translated Int64ToFloat64 is the reference `i2f` -/
+theorem gen_i2f (i : I64) : BlugeGen.C10.Int64ToFloat64 i = i2f i := by
+  unfold BlugeGen.C10.Int64ToFloat64 i2f
+  simp only [slt_zero_eq_msb]
+  rfl
 
 /-- the XOR mask has a clear sign bit, so flipping with it keeps the sign -/
 theorem msb_xor_lowMask (x : I64) : (x ^^^ lowMask).msb = x.msb := by
@@ -19,5 +38,11 @@ theorem f2i_i2f (i : I64) : f2i (i2f i) = i := by
 
 /-- Int64ToFloat64 ∘ Float64ToInt64 = id on all 2^64 patterns (every float, NaNs and infinities included) -/
 theorem i2f_f2i (f : I64) : i2f (f2i f) = f := f2i_i2f f
+
+/-- the round trip, stated on the translated code -/
+theorem gen_roundtrip (f : I64) :
+    BlugeGen.C10.Int64ToFloat64 (BlugeGen.C10.Float64ToInt64 f) = f ∧
+    BlugeGen.C10.Float64ToInt64 (BlugeGen.C10.Int64ToFloat64 f) = f := by
+  simp only [gen_f2i, gen_i2f, i2f_f2i, f2i_i2f, and_self]
 
 end Bluge.C10
